@@ -19,7 +19,7 @@ from __future__ import annotations
 import ast
 
 from ..core import AnalysisError, dotted, norm_src, walk_no_nested
-from .. import deriv
+from .. import deriv, protocol
 
 EXPLANATION = ("K5 over all resolved rod variants; AST comparison of _eval/_deval after copy-propagation; constant "
                "propagation of the `normalize` keyword (with the defaults read from math/rotations.py) at every quaternion-kernel "
@@ -313,8 +313,45 @@ def basis_degree_rule(ctx, rule="C11.R10"):
             rep.ok(rule, C, f"({p_} -> {d_}): basis multiplicities {sorted(dd)} of the derivative occur in the primal {sorted(dp)}")
 
 
+def force_codefinition(ctx, rule="C11.R12"):
+    """System sums `h`, `h_q`, `h_u` over the contributions that HAVE the respective method.  A class that offers `h_u` without `h`
+    contributes a Jacobian of forces that are not in the equations of motion: System.h_u is then not the derivative of System.h (and the
+    forces themselves are missing from the dynamics).  make_CosseratRodConstrained selects its base class at run time
+    (`CosseratRodBase = ...`); the class table resolves one of the alternatives, so each alternative is checked here."""
+    rep = ctx.rep
+    model = ctx.model
+    fn = ctx.repo.get(RB, "make_CosseratRodConstrained")
+    alts = []
+    inner = [c for c in ast.walk(fn) if isinstance(c, ast.ClassDef)]
+    basevar = {b.id for c in inner for b in c.bases if isinstance(b, ast.Name)}
+    for w in ast.walk(fn):
+        if isinstance(w, ast.Assign) and len(w.targets) == 1 and isinstance(w.targets[0], ast.Name) and w.targets[0].id in basevar and isinstance(w.value, ast.Name):
+            if w.value.id not in alts:
+                alts.append(w.value.id)
+    if len(alts) < 2 or not inner:
+        raise AnalysisError(f"{RB}:make_CosseratRodConstrained: base-class alternatives not found")
+    own = {f.name for f in inner[0].body if isinstance(f, ast.FunctionDef)}
+    for a in alts:
+        ci = model.cls(a, RB)
+        view = protocol.ClassView(ctx, ci)
+        have = set(own)
+        for c in view.mro:
+            have |= set(c.methods)
+        C = f"{RB}:make_CosseratRodConstrained[{a}]"
+        for d in ("h_q", "h_u"):
+            if d in have and "h" not in have:
+                rep.bad(rule, C, a, f"with base `{a}` the constrained rod offers `{d}` but no `h`: System.{d} contains the Jacobian of this rod's gyroscopic forces while System.h does not "
+                        f"contain the forces - `{d}` is not the derivative of `h`, and a spinning rigid rod is integrated without its gyroscopic term", f"{RB}:{fn.lineno}")
+            elif d in have:
+                rep.ok(rule, C, f"`{d}` and `h` are both provided")
+            else:
+                rep.ok(rule, C, f"`{d}` not provided", trivial=True)
+
+
 def run(ctx):
     rep = ctx.rep
+    rep.rule("C11.R12", "a rod class reports the Jacobian of a generalized force only together with the force: for EVERY base the constrained-rod factory can choose, h_u / h_q imply h (System collects them independently)", 3)
+    force_codefinition(ctx)
     rep.rule("C11.R11", "one decider for 'which element contains xi': the rod's element lookup delegates to the knot vector the mesh evaluates the shape functions with", 1)
     element_lookup_rule(ctx)
     rep.rule("C11.R10", "a stated derivative has the same number of cross-section-basis factors per monomial as its primal (K10 multiplicities; the R12 basis is not orthogonal)", 4)
@@ -560,4 +597,9 @@ MUTANTS += [
 MUTANTS += [
     dict(id="c11-r11-seed", canary=True, what="[seeded by sub-agent] rod element lookup computed as int(xi * nelement)", file="cardillo/rods/_base.py",
          old="        return self.knot_vector_r.element_number(xi)[0]\n", new="        xi = np.atleast_1d(xi)[0]\n        return min(int(xi * self.nelement), self.nelement - 1)\n", expect="C11.R11"),
+]
+
+MUTANTS += [
+    dict(id="c11-r12-f55", canary=True, what="fix F55 reverted: CosseratRod_PetrovGalerkin (the base of the fully constrained rod) defines h_u but no h", file='cardillo/rods/_base.py',
+         old='    def h(self, t, q, u):\n        h = np.zeros(self.nu, dtype=np.common_type(q, u))\n        for el in range(self.nelement):\n            elDOF = self.elDOF[el]\n            elDOF_u = self.elDOF_u[el]\n            h[elDOF_u] -= self.f_gyr_el(t, q[elDOF], u[elDOF_u], el)\n        return h\n\n    def h_u(self, t, q, u):\n        coo = CooMatrix((self.nu, self.nu))\n', new="    def h_u(self, t, q, u):\n        coo = CooMatrix((self.nu, self.nu))\n", expect="C11.R12"),
 ]
